@@ -2,6 +2,7 @@ import Zog.Props.FactsOK
 import Zog.Laws
 import Zog.Coerce
 import Zog.Views
+import Zog.Props.C15
 
 /-!
 # C14 — all input front ends are equivalent views of the same record   (partial: D17)
@@ -136,5 +137,13 @@ theorem nested_flat_source_fails : Engine.provOf ((Engine.Prov.flat []).get "db"
 
 theorem engine_mirrors (env : Env) (s : Schema) (tag : Option String) (v : Val) (d : DVal) :
     Engine.run env Gen.facts .parse s tag v d = Spec.run env .parse s tag v d := engine_is_spec env .parse s tag v d
+
+/-- which source a request is read from — and therefore WHICH struct tag names its keys (`query` for GET and
+    HEAD and for unknown media types, `json` / `form` for the two body types) — is as documented
+    (regenerated dispatch tables of zhttp.Request) -/
+theorem request_source_as_documented :
+    Gen.httpMethods = [("GET".toList, .query), ("HEAD".toList, .query)] ∧
+    Gen.httpTypes = [("application/json".toList, .json), ("application/x-www-form-urlencoded".toList, .form)] ∧
+    Gen.httpDefault = .query ∧ Gen.httpCutSep = [';'] ∧ Gen.httpUniform = true := C15.tables_as_documented
 
 end Zog.Props.C14
